@@ -4,6 +4,8 @@
    Proofs_encl.v and rest on Interval's I.exp_correct, I.cos_correct, I.sin_correct, I.sqrt_correct, ...
      CovExponential.cpp:47  CovGaussian.cpp:50  CovSincard.cpp:48  CovMatern.cpp:69 (nu = 1/2, 3/2, 5/2)
      CovStable.cpp:47 (alpha = 1/2, 1, 3/2, 2)  CovCosinus.cpp:42  CovCosExp.cpp:48  CovStorkey.cpp:42
+     CovGCspline.cpp:41  CovGCspline2.cpp:41 (logarithm: I.ln)
+     on the sphere: CovGeometric.cpp:41, CovExponential.cpp:85, ACovFunc::_evaluateCovOnSphere (Legendre series)
    The cut-offs "h > MAX_EXP -> 0" (Exponential, Gaussian) and "h > 100 -> 0" (Cosexp) of the code are not
    mirrored: they change the value by less than exp(-100) < 4e-44. *)
 From Coq Require Import List ZArith QArith Bool.
@@ -29,6 +31,7 @@ Definition icos := I.cos prec.
 Definition isin := I.sin prec.
 Definition isqrt := I.sqrt prec.
 Definition ipow (x : I.type) (n : positive) := I.power_pos prec x n.
+Definition iln := I.ln prec.
 
 Definition two_pi : I.type := imul (iZ 2) (iQ gv_pi).        (* 2 * GV_PI, GV_PI the binary64 constant *)
 
@@ -50,6 +53,36 @@ Definition i_storkey_in (h : I.type) : I.type :=
              (imul (idiv (iZ 3) two_pi) (isin a)))
        (iZ 3).
 
+(* generalised covariances with a logarithm.  [logv] = enclosure of the logarithmic term (0 under the guards of the code) *)
+Definition i_ln2 : I.type := iln (iZ 2).
+Definition i_spline (ndim : Z) (r : Q) (h logv : I.type) : I.type :=
+  let r2 := imul (iQ r) (iQ r) in
+  let h2 := imul h h in
+  if Z.eqb ndim 1 then isub (imul (iQ (1#2)) r2) (imul h2 (isub (isub (iQ (3#2)) i_ln2) logv))
+  else if Z.eqb ndim 2 then isub r2 (imul h2 (isub (iZ 1) logv))
+  else isub (imul (iQ (3#2)) r2) (imul h2 (isub (isub (iQ (11#6)) i_ln2) logv)).
+(* -(A + h2 (B + h2 (C + log h))), B = 1, A = (7 - 10 B)/12, C = (-7 - 2 B)/12 *)
+Definition i_spline2 (h logv : I.type) : I.type :=
+  let h2 := imul h h in
+  I.neg (iadd (iQ (-(1#4))) (imul h2 (iadd (iZ 1) (imul h2 (iadd (iQ (-(3#4))) logv))))).
+
+(* on the sphere: alpha = angular distance, rho / nu from the scale *)
+Definition i_geometric_sph (rho : Q) (alpha : I.type) : I.type :=
+  idiv (isub (iZ 1) (iQ rho))
+       (isqrt (iadd (isub (iZ 1) (imul (imul (iZ 2) (iQ rho)) (icos alpha))) (imul (iQ rho) (iQ rho)))).
+Definition i_exponential_sph (nu : Q) (alpha : I.type) : I.type := iexp (I.neg (imul (iQ nu) alpha)).
+(* ACovFunc::_evaluateCovOnSphere: sum_{i=1}^{degree+1} P_{i-1}(cos alpha) * spectrum[i-1], Legendre recursion
+   u2 = ((2i+1) c u1 - i u0)/(i+1) *)
+Fixpoint i_legendre_loop (fuel : nat) (i : Z) (c u0 u1 : I.type) (sp : list Q) (acc : I.type) : I.type :=
+  match fuel, sp with
+  | S f, a :: rest =>
+      let u2 := imul (idiv (iZ 1) (iZ (i + 1))) (isub (imul (imul (iZ (2 * i + 1)) c) u1) (imul (iZ i) u0)) in
+      i_legendre_loop f (i + 1) c u1 u2 rest (iadd acc (imul u0 (iQ a)))
+  | _, _ => acc
+  end.
+Definition i_sphere_series (sp : list Q) (alpha : I.type) : I.type :=
+  let c := icos alpha in i_legendre_loop (length sp) 1 c (iZ 1) c sp (iZ 0).
+
 (* float -> rational *)
 Definition f2q (x : F.type) : option Q :=
   match x with
@@ -64,9 +97,15 @@ Definition i2qq (x : I.type) : option (Q * Q) :=
   end.
 
 (* the interval function of a transcendental structure; None = not in the executable model *)
-Definition cor_transI (type : Z) (param : Q) (hlo hhi : Q) : option I.type :=
+Definition cor_transI (type : Z) (param : Q) (ndim : Z) (field : Q) (hlo hhi : Q) : option I.type :=
   let h := ibr hlo hhi in
   match type with
+  | 14%Z => (* guards: r < 10e-5 or h < 1e-10 -> no logarithmic term *)
+            if qltb field (1 # 10000) then Some (i_spline ndim field h (iZ 0))
+            else if qleb (1 # 10000000000) hlo then Some (i_spline ndim field h (iln (idiv h (iQ field))))
+            else if qltb hhi (1 # 10000000000) then Some (i_spline ndim field h (iZ 0)) else None
+  | 22%Z => if qleb (1 # 10000) hlo then Some (i_spline2 h (iln h))
+            else if qltb hhi (1 # 10000) then Some (i_spline2 h (iZ 0)) else None
   | 1%Z => Some (i_exponential h)
   | 3%Z => Some (i_gaussian h)
   | 5%Z => if qltb (1 # 100000) hlo then Some (i_sinc h)
@@ -86,8 +125,24 @@ Definition cor_transI (type : Z) (param : Q) (hlo hhi : Q) : option I.type :=
   | _ => None
   end.
 
-Definition cor_trans (type : Z) (param : Q) (hlo hhi : Q) : option (Q * Q) :=
-  match cor_transI type param hlo hhi with
+(* covariance on the sphere at angular distance alpha (rational, in radians):
+   ACovFunc::evalCovOnSphere(alpha, scale, degree).  [sp] = spectrum with degree+1 coefficients (series forms only) *)
+Definition firstn_sum (n : nat) (l : list Q) : Q := fold_left Qplus (firstn n l) 0.
+Definition sphere_covI (type : Z) (scale : Q) (degree : nat) (sp : option (list Q)) (alpha : Q) : option I.type :=
+  match type with
+  | 28%Z => if qleb 0 scale && qltb scale 1 then Some (i_geometric_sph scale (iQ alpha)) else None
+  | 1%Z => Some (i_exponential_sph (scale * (2995732 # 1000000)) (iQ alpha))
+  | 30%Z => Some (iQ (1 - 2 * alpha / gv_pi))
+  | 7%Z =>
+      match sp with
+      | Some l => if qeqb alpha 0 then Some (iQ (firstn_sum degree l)) else Some (i_sphere_series l (iQ alpha))
+      | None => None
+      end
+  | _ => None
+  end.
+
+Definition cor_trans (type : Z) (param : Q) (ndim : Z) (field : Q) (hlo hhi : Q) : option (Q * Q) :=
+  match cor_transI type param ndim field hlo hhi with
   | Some x => i2qq x
   | None => None
   end.
